@@ -530,6 +530,24 @@ def readonly_rule(ctx, facts, cfg):
         ctx.sample({'rule': 'C03.b', 'entries': len(set(entries)), 'reachable': len(seen), 'mutable_accesses': len(hits)})
 
 
+def _const_value(e, depth=0):
+    """value of an expression made of integer constants only (`LIMIT + 1` is computed at run time in a debug build), else None"""
+    if depth > 6 or not isinstance(e, tuple):
+        return None
+    if e[0] == 'const':
+        return e[1] if isinstance(e[1], int) and not isinstance(e[1], bool) else None
+    if e[0] == 'cast' and len(e) > 2:
+        return _const_value(e[2], depth + 1)
+    if e[0] == 'binop' and e[1].split('With')[0] in ('Add', 'Sub', 'Mul'):
+        a, b = _const_value(e[2], depth + 1), _const_value(e[3], depth + 1)
+        if a is None or b is None:
+            return None
+        return {'Add': a + b, 'Sub': a - b, 'Mul': a * b}[e[1].split('With')[0]]
+    if e[0] == 'load' and isinstance(e[1], dict) and e[1].get('proj') and e[1]['proj'][-1].get('k') == 'field':
+        return None
+    return None
+
+
 def pointer_budget_rule(ctx, facts, cfg):
     """C03.e: a trusted reader that gives up after a number of compression pointers must allow at least as many pointer
     follows as the validator admits (DNS_MAX_HOSTNAME_INDIRECTIONS): otherwise an accepted name is silently truncated."""
@@ -545,13 +563,20 @@ def pointer_budget_rule(ctx, facts, cfg):
         if f['kind'] == 'Closure' or '@' in key or key.endswith('Compress::check_compressed_name') or not key.startswith('compress::'):
             continue
         defs = F.single_defs(f)
+        from rules.C02 import pointer_follow_sites
+        if not pointer_follow_sites(f, defs):
+            continue
+        # a counter that moves by one and is compared with a constant: the reader's own pointer budget, however it is spelt
+        units = F.unit_counters(f)
         counters = set()
         for bi, b in F.blocks(f):
             t = b['term']
             if t['k'] == 'switch':
                 e = F.expr(f, defs, t['discr'])
-                if e[0] == 'binop' and e[1] in ('Gt', 'Ge', 'Lt', 'Le') and e[3] == ('const', budget) and e[2][0] == 'local':
-                    counters.add(e[2][1])
+                if e[0] == 'binop' and e[1] in ('Gt', 'Ge', 'Lt', 'Le', 'Eq', 'Ne'):
+                    for x, y in ((e[2], e[3]), (e[3], e[2])):
+                        if x[0] == 'local' and x[1] in units and _const_value(y) is not None:
+                            counters.add(x[1])
         if not counters:
             continue
         n += 1
@@ -571,12 +596,14 @@ def pointer_budget_rule(ctx, facts, cfg):
                 if bb in heads:
                     v = st.mem.get('%s._%d' % (fr, c))
                     if isinstance(v, Int):
-                        his.append(st.C.bounds(v.e)[1])
+                        lo, hi = st.C.bounds(v.e)
+                        b_ = lo if units[c]['dir'] < 0 else hi
+                        his.append(None if b_ is None else abs(b_ - units[c]['init']))
             if not his:
                 continue
             top = None if any(h is None for h in his) else max(his)
             ok = top is None or top >= budget
-            ctx.instance(rid, '%s: pointer counter reaches %s at the loop head (validator admits %d pointers per name)' % (key.split('::')[-1], top, budget), ok=ok, site=f['at'])
+            ctx.instance(rid, '%s: the pointer counter travels up to %s from its start at the loop head (validator admits %d pointers per name)' % (key.split('::')[-1], top, budget), ok=ok, site=f['at'])
             if not ok:
                 ctx.violation(rid, key, 'pointer-budget', '%s stops following compression pointers after %s of them, but the validator accepts names with up to %d: such a name is returned truncated'
                               % (key.split('::')[-1], top, budget), site=f['at'], config=cfg)
